@@ -4,7 +4,8 @@
 //
 // case = [0, gr_peers, duration, probe_fams, events]      restarting-speaker glue (C11)
 //   events: [0, rdinput] | [1, f, net, peer, pid, 0]
-// case = [1, events]                                      helper-side glue (C10)
+// case = [1, events]                                      helper-side glue (C10): real PeerSession::run() over loopback TCP
+// case = [2, reason, nbit]                                 gr_on_disconnect alone (C10)
 //   events: [0, fams, local_gr, remote_gr, local_llgr, remote_llgr] up (capabilities; gr = [[fams], restart, nbit], llgr = [[f, t]..]) | [1, f, id, no_llgr, llgr_comm] announce | [2, f] eor
 //           | [3, reason] down | [4] failed connect | [5] restart timer | [6, f] llgr timer
 //           | [7] force_down | [8, b] admin_down
@@ -272,8 +273,42 @@ async fn run_rs_case(l: &[Val]) -> Val {
 }
 
 // ------------------------------------------------------------------ C10
-const PROBE_FAMS: [Family; 3] = [Family::IPV4, Family::IPV6, Family::IPV4_VPN];
+// Every session of a case is a REAL PeerSession::run() (session_loop, teardown decisions,
+// apply_disconnect, ...) over a loopback TCP pair; the harness is the neighbour on the other
+// end of the socket: it sends OPEN / KEEPALIVE / UPDATE / End-of-RIB / NOTIFICATION, closes the
+// socket, goes silent, or has the session closed administratively.
+const PROBE_FAMS: [Family; 3] = [Family::IPV4, Family::IPV6, Family::IPV4_MC];
+// always negotiated and never announced: its prefix limit of 0 is the trigger for a local
+// Cease / Maximum-Prefixes NOTIFICATION
+const HIDDEN: Family = Family::IPV6_MC;
+const PEER_ASN: u32 = 65101;
 
+fn gr_nlri(f: Family, n: u32) -> packet::Nlri {
+    if f.afi() == Family::AFI_IP6 {
+        packet::Nlri::V6(packet::bgp::Ipv6Net {
+            addr: std::net::Ipv6Addr::new(0x2001, 0xdb8, 0, n as u16, 0, 0, 0, 0),
+            mask: 64,
+        })
+    } else {
+        net_of(n)
+    }
+}
+fn gr_nlri_code(n: &packet::Nlri) -> i128 {
+    match n {
+        packet::Nlri::V4(p) => p.addr.octets()[2] as i128,
+        packet::Nlri::V6(p) => p.addr.segments()[3] as i128,
+        _ => -3,
+    }
+}
+fn gr_nexthop(f: Family) -> bgp::Nexthop {
+    if f.afi() == Family::AFI_IP6 {
+        bgp::Nexthop::V6("2001:db8:ffff::1".parse().unwrap())
+    } else {
+        bgp::Nexthop::V4(std::net::Ipv4Addr::new(192, 0, 2, 1))
+    }
+}
+
+// gr_on_disconnect alone: [2, reason, nbit] -> does helper mode apply
 fn reason_of(code: i128) -> crate::fsm::SessionDownReason {
     use crate::fsm::SessionDownReason as R;
     use rustybgp_packet::Notification as N;
@@ -287,31 +322,69 @@ fn reason_of(code: i128) -> crate::fsm::SessionDownReason {
         5 => R::LocalNotification(m(N::from_notification(3, 1, Vec::new()))),
         6 => R::HoldTimerExpired,
         7 => R::FsmError,
+        8 => R::AdminShutdown,
         t => panic!("verif: bad reason {}", t),
     }
 }
-
-fn comm_attrs(no_llgr: bool, llgr_comm: bool) -> Arc<Vec<packet::Attribute>> {
-    let mut bin: Vec<u8> = Vec::new();
-    if no_llgr {
-        bin.extend_from_slice(&0xffff_0007u32.to_be_bytes());
-    }
-    if llgr_comm {
-        bin.extend_from_slice(&0xffff_0006u32.to_be_bytes());
-    }
-    if bin.is_empty() {
-        Arc::new(Vec::new())
-    } else {
-        Arc::new(vec![packet::Attribute::new_with_bin(packet::Attribute::COMMUNITY, bin).unwrap()])
-    }
+fn run_gr_on_disconnect_case(l: &[Val]) -> Val {
+    let gr = NegotiatedGr {
+        families: vec![Family::IPV4],
+        restart_time: Duration::from_secs(120),
+        notification_enabled: l[2].bool(),
+    };
+    Val::b(gr_on_disconnect(&Some(reason_of(l[1].int())), gr).is_some())
 }
 
-fn has_comm(attrs: &[packet::Attribute], c: u32) -> bool {
+fn route_attrs(generation: i128, no_llgr: bool, llgr_comm: bool) -> Arc<Vec<packet::Attribute>> {
+    let mut comm: Vec<u8> = (0x0001_0000u32 | generation as u32).to_be_bytes().to_vec();
+    if no_llgr {
+        comm.extend_from_slice(&0xffff_0007u32.to_be_bytes());
+    }
+    if llgr_comm {
+        comm.extend_from_slice(&0xffff_0006u32.to_be_bytes());
+    }
+    let mut aspath = vec![2u8, 1u8];
+    aspath.extend_from_slice(&PEER_ASN.to_be_bytes());
+    Arc::new(vec![
+        packet::Attribute::new_with_value(packet::Attribute::ORIGIN, 0).unwrap(),
+        packet::Attribute::new_with_bin(packet::Attribute::AS_PATH, aspath).unwrap(),
+        packet::Attribute::new_with_bin(packet::Attribute::COMMUNITY, comm).unwrap(),
+    ])
+}
+
+fn comm_values(attrs: &[packet::Attribute]) -> Vec<u32> {
     attrs
         .iter()
         .find(|a| a.code() == packet::Attribute::COMMUNITY)
         .and_then(|a| a.binary())
-        .is_some_and(|bin| bin.chunks(4).any(|x| x.try_into().ok().map(u32::from_be_bytes) == Some(c)))
+        .map(|bin| {
+            bin.chunks(4)
+                .filter_map(|x| x.try_into().ok().map(u32::from_be_bytes))
+                .collect()
+        })
+        .unwrap_or_default()
+}
+
+fn caps_of(fams: &[Family], asn: u32, gr: &Val, llgr: &Val) -> Vec<packet::Capability> {
+    let mut mp: Vec<Family> = fams.to_vec();
+    mp.push(HIDDEN);
+    let mut c: Vec<packet::Capability> =
+        mp.iter().map(|f| packet::Capability::MultiProtocol(*f)).collect();
+    c.push(packet::Capability::FourOctetAsNumber(asn));
+    c.push(packet::Capability::AddPath(mp.iter().map(|f| (*f, 3u8)).collect()));
+    if let Some(g) = gr.list().first() {
+        c.push(packet::Capability::GracefulRestart {
+            flags: if g.at(2).bool() { 0x4 } else { 0 },
+            restart_time: g.at(1).u16(),
+            families: g.at(0).list().iter().map(|f| (fam_of(f), 0u8)).collect(),
+        });
+    }
+    if let Some(l) = llgr.list().first() {
+        c.push(packet::Capability::LongLivedGracefulRestart(
+            l.list().iter().map(|p| (fam_of(p.at(0)), 0u8, p.at(1).u32())).collect(),
+        ));
+    }
+    c
 }
 
 async fn settle() {
@@ -320,16 +393,192 @@ async fn settle() {
     }
 }
 
+/// the neighbour's end of one live session
+struct Live {
+    client: TcpStream,
+    rxbuf: bytes::BytesMut,
+    peer_codec: bgp::PeerCodec,
+    fams: Vec<Family>,
+    counter: Arc<MessageCounter>,
+    base: u64,
+    sent: u64,
+    handle: tokio::task::JoinHandle<()>,
+    generation: i128,
+    neg: Val,
+}
+
+impl Live {
+    async fn send(&mut self, msgs: &[bgp::Message]) {
+        use tokio::io::AsyncWriteExt;
+        let mut buf = bytes::BytesMut::new();
+        for m in msgs {
+            self.sent += self.peer_codec.encode_to(m, &mut buf).expect("verif: encode") as u64;
+        }
+        self.client.write_all(&buf).await.expect("verif: write");
+    }
+    /// until the session task has taken everything sent so far off the wire and is idle again
+    async fn sync(&self) {
+        let mut spins = 0u32;
+        while self.counter.total.load(Ordering::Relaxed) < self.base + self.sent {
+            tokio::time::sleep(Duration::from_millis(1)).await;
+            spins += 1;
+            assert!(spins < 5000, "verif: the session did not read the messages");
+        }
+        settle().await;
+    }
+    /// next message from the session, None when it closed the socket
+    async fn recv(&mut self) -> Option<bgp::Message> {
+        use tokio::io::AsyncReadExt;
+        loop {
+            match self.peer_codec.try_parse(&mut self.rxbuf) {
+                Ok(Some(pm)) => {
+                    let msgs: Vec<bgp::Message> = bgp::validate_message(pm, true)
+                        .unwrap_or_else(|_| panic!("verif: neighbour-side validation failed"))
+                        .into_iter()
+                        .collect();
+                    if let Some(m) = msgs.into_iter().next() {
+                        return Some(m);
+                    }
+                }
+                Ok(None) => {}
+                Err(_) => panic!("verif: neighbour-side parse error"),
+            }
+            let n = tokio::time::timeout(Duration::from_secs(10), self.client.read_buf(&mut self.rxbuf))
+                .await
+                .expect("verif: timeout reading from the session")
+                .unwrap_or(0);
+            if n == 0 {
+                return None;
+            }
+        }
+    }
+    async fn finished(self) {
+        let Live { client, handle, .. } = self;
+        tokio::time::timeout(Duration::from_secs(15), handle)
+            .await
+            .expect("verif: the session did not end")
+            .expect("verif: session task panicked");
+        drop(client);
+        settle().await;
+    }
+}
+
+/// A new connection of the neighbour, taken through the real accept_connection() (which builds
+/// the PeerSession from the Peer record, registers its close channel with the ConnArbiter and
+/// refuses an admin-down peer or a second connection) and run by the real PeerSession::run().
+/// Only the local capabilities of the case are put into the Peer record first (they differ from
+/// session to session), together with a PeerFsm that sends them.
+async fn start_session(
+    global: &GlobalHandle,
+    tables: &TableHandle,
+    addr: IpAddr,
+    local_cap: Vec<packet::Capability>,
+    active_tx: &mpsc::UnboundedSender<TcpStream>,
+) -> (TcpStream, Option<(Arc<MessageCounter>, tokio::task::JoinHandle<()>)>) {
+    let listener = TcpListener::bind("127.0.0.1:0").await.unwrap();
+    let laddr = listener.local_addr().unwrap();
+    let (client, server) = tokio::join!(TcpStream::connect(laddr), listener.accept());
+    let client = client.unwrap();
+    let server = server.unwrap().0;
+    // no Nagle / delayed-ACK stalls (40 ms each) on the loopback pair
+    client.set_nodelay(true).unwrap();
+    server.set_nodelay(true).unwrap();
+    {
+        let mut g = global.write().await;
+        let peer = g.peers.get_mut(&addr).unwrap();
+        let live = {
+            let ctx = peer.context.lock().unwrap();
+            let arb = ctx.conn_arbiter.lock().unwrap();
+            arb.passive_close_tx.is_some()
+        };
+        if !live {
+            peer.config.local_cap = local_cap.clone();
+            let fsm = crate::fsm::PeerFsm::new(
+                u32::from(std::net::Ipv4Addr::new(1, 0, 0, 1)),
+                65001,
+                local_cap,
+                90,
+                0,
+                FnvHashMap::default(),
+            );
+            peer.context.lock().unwrap().conn_arbiter =
+                Arc::new(std::sync::Mutex::new(ConnArbiter::new(fsm)));
+        }
+    }
+    match accept_connection(global, tables, server, crate::fsm::Role::Passive).await {
+        None => (client, None),
+        Some(s) => {
+            let counter = Arc::clone(&s.counter_rx);
+            let handle = tokio::spawn(s.run(global.clone(), active_tx.clone()));
+            (client, Some((counter, handle)))
+        }
+    }
+}
+
+fn observe(
+    context: &Arc<std::sync::Mutex<PeerContext>>,
+    tables: &TableHandle,
+    addr: IpAddr,
+    neg: &Val,
+) -> Val {
+    let (restarting, rt, mut lts) = {
+        let ctx = context.lock().unwrap();
+        (
+            ctx.gr_state.is_peer_restarting(),
+            ctx.gr_restart_timer.as_ref().is_some_and(|t| !t.is_closed()),
+            ctx.llgr_family_timers
+                .iter()
+                .filter(|(_, t)| !t.is_closed())
+                .map(|(f, _)| fam_code(f))
+                .collect::<Vec<_>>(),
+        )
+    };
+    lts.sort();
+    let mut routes: Vec<Vec<i128>> = Vec::new();
+    for f in PROBE_FAMS {
+        for d in tables.collect_paths(table::TableQuery::AdjIn(addr), f, vec![], true) {
+            for p in d.paths {
+                let comm = comm_values(&p.attr);
+                let g = comm
+                    .iter()
+                    .find(|c| *c >> 16 == 1)
+                    .map(|c| (*c & 0xffff) as i128)
+                    .unwrap_or(-1);
+                routes.push(vec![
+                    fam_code(&f),
+                    gr_nlri_code(&d.net) * 2 + p.remote_path_id as i128,
+                    g,
+                    p.source.is_stale() as i128,
+                    p.source.is_llgr_stale() as i128,
+                    comm.contains(&0xffff_0007) as i128,
+                    comm.contains(&0xffff_0006) as i128,
+                ]);
+            }
+        }
+    }
+    routes.sort();
+    Val::L(vec![
+        Val::b(restarting),
+        Val::b(rt),
+        Val::L(lts.into_iter().map(Val::I).collect()),
+        Val::L(routes
+            .into_iter()
+            .map(|r| Val::L(r.into_iter().map(Val::I).collect()))
+            .collect()),
+        neg.clone(),
+    ])
+}
+
 async fn run_helper_case(l: &[Val]) -> Val {
     let global = mk_global();
     let tables: TableHandle = Arc::new(TableManager::new(1));
-    let context = mk_context();
-    let addr = peer_addr(1);
-    let mut session: Option<PeerSession> = None;
-    let mut sources: Vec<(Arc<table::Source>, i128)> = Vec::new();
-    let mut generation: i128 = 0;
+    // the neighbour is the Peer record of the address its connections come from
+    let addr = IpAddr::V4(std::net::Ipv4Addr::LOCALHOST);
+    let (active_tx, _active_rx) = mpsc::unbounded_channel::<TcpStream>();
     {
-        let mut params = PeerParams {
+        let mut limits: FnvHashMap<Family, u32> = FnvHashMap::default();
+        limits.insert(HIDDEN, 0);
+        let params = PeerParams {
             remote_addr: addr,
             remote_port: Global::BGP_PORT,
             expected_remote_asn: 0,
@@ -347,7 +596,7 @@ async fn run_helper_case(l: &[Val]) -> Val {
             password: None,
             families: FnvHashMap::default(),
             send_max: FnvHashMap::default(),
-            prefix_limits: FnvHashMap::default(),
+            prefix_limits: limits,
             graceful_restart: None,
             llgr: None,
             bfd_config: None,
@@ -355,130 +604,219 @@ async fn run_helper_case(l: &[Val]) -> Val {
             bind_interface: None,
             export_policy: None,
         };
-        params.passive = true;
         global.write().await.add_peer(params, None).expect("add_peer");
     }
+    let context = Arc::clone(&global.read().await.peers.get(&addr).unwrap().context);
+    let mut live: Option<Live> = None;
+    let mut generation: i128 = 0;
     let mut obs = Vec::new();
     for ev in l[1].list() {
         let e = ev.list();
         match e[0].int() {
             0 => {
-                // [0, fams, local_gr, remote_gr, local_llgr, remote_llgr]: the session comes up
-                // through the real path: the FSM outputs SessionNegotiated + SessionEstablished
-                // go through apply_outputs (PeerCodec::negotiate, negotiate_gr, negotiate_llgr,
-                // on_established, the GlobalEffects it decides to raise) and then process_effects.
-                if session.is_none() {
+                // [0, fams, local_gr, remote_gr, local_llgr, remote_llgr, hold]
+                if live.is_none() {
                     generation += 1;
-                    let mut s = PeerSession::new_for_test(addr, context.clone(), tables.clone());
                     let fams: Vec<Family> = e[1].list().iter().map(fam_of).collect();
-                    let caps = |gr: &Val, llgr: &Val| -> Vec<packet::Capability> {
-                        let mut c: Vec<packet::Capability> =
-                            fams.iter().map(|f| packet::Capability::MultiProtocol(*f)).collect();
-                        if let Some(g) = gr.list().first() {
-                            c.push(packet::Capability::GracefulRestart {
-                                flags: if g.at(2).bool() { 0x4 } else { 0 },
-                                restart_time: g.at(1).u16(),
-                                families: g.at(0).list().iter().map(|f| (fam_of(f), 0u8)).collect(),
-                            });
-                        }
-                        if let Some(l) = llgr.list().first() {
-                            c.push(packet::Capability::LongLivedGracefulRestart(
-                                l.list()
+                    let local_cap = caps_of(&fams, 65001, &e[2], &e[4]);
+                    let remote_cap = caps_of(&fams, PEER_ASN, &e[3], &e[5]);
+                    // what apply_outputs negotiates, observed on a throw-away session of its own
+                    let neg = {
+                        let mut probe = PeerSession::new_for_test(
+                            addr,
+                            mk_context(),
+                            Arc::new(TableManager::new(1)),
+                        );
+                        probe.local_cap = local_cap.clone();
+                        let codec = bgp::PeerCodec::negotiate(&local_cap, &remote_cap);
+                        let role = probe.role;
+                        let outputs = vec![
+                            crate::fsm::PeerFsmOutput::Connection(
+                                role,
+                                crate::fsm::Output::SessionNegotiated(codec),
+                            ),
+                            crate::fsm::PeerFsmOutput::Connection(
+                                role,
+                                crate::fsm::Output::SessionEstablished {
+                                    remote_asn: PEER_ASN,
+                                    remote_id: 1,
+                                    remote_holdtime: 90,
+                                    remote_capabilities: remote_cap.clone(),
+                                    effective_max: FnvHashMap::default(),
+                                },
+                            ),
+                        ];
+                        let sa: SocketAddr = "192.0.2.254:179".parse().unwrap();
+                        let _ = probe.apply_outputs(outputs, sa, sa).await;
+                        Val::L(vec![
+                            Val::opt(probe.negotiated_gr.as_ref().map(|g| {
+                                Val::L(vec![
+                                    Val::L(g.families.iter().map(|f| Val::I(fam_code(f))).collect()),
+                                    Val::n(g.restart_time.as_secs()),
+                                    Val::b(g.notification_enabled),
+                                ])
+                            })),
+                            Val::opt(probe.negotiated_llgr.as_ref().map(|l| {
+                                Val::L(l.families
                                     .iter()
-                                    .map(|p| (fam_of(p.at(0)), 0u8, p.at(1).u32()))
-                                    .collect(),
-                            ));
-                        }
-                        c
+                                    .map(|(f, d)| Val::L(vec![Val::I(fam_code(f)), Val::n(d.as_secs())]))
+                                    .collect())
+                            })),
+                        ])
                     };
-                    let local_cap = caps(&e[2], &e[4]);
-                    let remote_cap = caps(&e[3], &e[5]);
-                    s.local_cap = local_cap.clone();
-                    let codec = bgp::PeerCodec::negotiate(&local_cap, &remote_cap);
-                    let role = s.role;
-                    let outputs = vec![
-                        crate::fsm::PeerFsmOutput::Connection(
-                            role,
-                            crate::fsm::Output::SessionNegotiated(codec),
-                        ),
-                        crate::fsm::PeerFsmOutput::Connection(
-                            role,
-                            crate::fsm::Output::SessionEstablished {
-                                remote_asn: 65101,
-                                remote_id: 1,
-                                remote_holdtime: 90,
-                                remote_capabilities: remote_cap,
-                                effective_max: FnvHashMap::default(),
-                            },
-                        ),
-                    ];
-                    let local_sa: SocketAddr = "192.0.2.254:179".parse().unwrap();
-                    let remote_sa: SocketAddr = "192.0.2.1:40000".parse().unwrap();
-                    let (_step, effects) = s.apply_outputs(outputs, local_sa, remote_sa).await;
-                    s.process_effects(effects, &global).await;
-                    for src in s.source.values() {
-                        sources.push((src.clone(), generation));
+                    let (client, started) =
+                        start_session(&global, &tables, addr, local_cap, &active_tx).await;
+                    let Some((counter, handle)) = started else {
+                        // refused (admin-down peer): the neighbour sees the socket close
+                        generation -= 1;
+                        drop(client);
+                        settle().await;
+                        obs.push(observe(&context, &tables, addr, &Val::L(vec![])));
+                        continue;
+                    };
+                    let base = counter.total.load(Ordering::Relaxed);
+                    let mut lv = Live {
+                        client,
+                        rxbuf: bytes::BytesMut::new(),
+                        peer_codec: bgp::PeerCodec::new(),
+                        fams: fams.clone(),
+                        counter,
+                        base,
+                        sent: 0,
+                        handle,
+                        generation,
+                        neg,
+                    };
+                    // the OPEN exchange, as the neighbour
+                    let their_open = loop {
+                        match lv.recv().await {
+                            Some(bgp::Message::Open(o)) => break o,
+                            Some(_) => {}
+                            None => panic!("verif: the session closed before its OPEN"),
+                        }
+                    };
+                    let hold = e[6].u16();
+                    let open = bgp::Message::Open(bgp::Open {
+                        as_number: PEER_ASN,
+                        router_id: u32::from(std::net::Ipv4Addr::new(192, 0, 2, 1)),
+                        holdtime: HoldTime::new(hold).expect("hold time"),
+                        capability: remote_cap.clone(),
+                    });
+                    lv.send(&[open, bgp::Message::Keepalive]).await;
+                    lv.peer_codec = bgp::PeerCodec::negotiate(&remote_cap, &their_open.capability);
+                    // Established is over (on_established, the effects) once the End-of-RIB of
+                    // every family of the session has been sent to us
+                    let mut eors = 0;
+                    while eors < fams.len() + 1 {
+                        match lv.recv().await {
+                            Some(bgp::Message::Update(bgp::Update::EndOfRib(_))) => eors += 1,
+                            Some(_) => {}
+                            None => panic!("verif: the session closed during establishment"),
+                        }
                     }
-                    session = Some(s);
+                    lv.sync().await;
+                    live = Some(lv);
                 }
             }
             1 => {
-                if let Some(s) = session.as_ref() {
+                if let Some(lv) = live.as_mut() {
                     let f = fam_of(&e[1]);
-                    if let Some(src) = s.source.get(&f) {
-                        tables.insert_route(
-                            src.clone(),
-                            f,
-                            // id = 2 * prefix + path id (two paths of one prefix share a destination)
-                            packet::PathNlri { path_id: e[2].u32() % 2, nlri: net_of(e[2].u32() / 2) },
-                            None,
-                            comm_attrs(e[3].bool(), e[4].bool()),
-                            None,
-                            0,
-                        );
+                    if lv.fams.contains(&f) {
+                        let id = e[2].u32();
+                        let m = bgp::Message::Update(bgp::Update::Reach {
+                            family: f,
+                            entries: vec![packet::PathNlri { path_id: id % 2, nlri: gr_nlri(f, id / 2) }],
+                            nexthop: Some(gr_nexthop(f)),
+                            attr: route_attrs(lv.generation, e[3].bool(), e[4].bool()),
+                        });
+                        lv.send(&[m]).await;
+                        lv.sync().await;
                     }
                 }
             }
             2 => {
-                // rx path: GrEorReceived is raised only when GR was negotiated on this session
-                if let Some(s) = session.as_mut() {
-                    if s.negotiated_gr.is_some() {
-                        s.process_effects(
-                            vec![GlobalEffect::GrEorReceived { family: fam_of(&e[1]) }],
-                            &global,
-                        )
-                        .await;
+                if let Some(lv) = live.as_mut() {
+                    let f = fam_of(&e[1]);
+                    if lv.fams.contains(&f) {
+                        lv.send(&[bgp::Message::eor(f)]).await;
+                        lv.sync().await;
                     }
                 }
             }
             3 => {
-                if let Some(mut s) = session.take() {
-                    // the end of session_loop(): the real PeerSession::teardown(), then the
-                    // rest of run() (apply_disconnect)
-                    let disconnect = DisconnectInfo {
-                        role: s.role,
-                        remote_addr: s.remote_addr,
-                        export_map: ExportMap::default(),
-                        negotiated_gr: None,
-                        negotiated_llgr: None,
-                    };
-                    let disconnect =
-                        s.teardown(&global, Some(reason_of(e[1].int())), disconnect).await;
-                    apply_disconnect(&context, addr, &tables, disconnect).await;
+                if let Some(mut lv) = live.take() {
+                    use rustybgp_packet::Notification as N;
+                    match e[1].int() {
+                        0 => {
+                            // TCP failure: the neighbour's socket goes away
+                            let Live { client, handle, .. } = lv;
+                            drop(client);
+                            tokio::time::timeout(Duration::from_secs(15), handle)
+                                .await
+                                .expect("verif: the session did not end")
+                                .expect("verif: session task panicked");
+                            settle().await;
+                        }
+                        1 => {
+                            lv.send(&[bgp::Message::Notification(N::CeaseAdministrativeReset)]).await;
+                            lv.finished().await;
+                        }
+                        2 => {
+                            lv.send(&[bgp::Message::Notification(N::CeaseHardReset)]).await;
+                            lv.finished().await;
+                        }
+                        3 => {
+                            // one route of the family whose prefix limit is 0
+                            let m = bgp::Message::Update(bgp::Update::Reach {
+                                family: HIDDEN,
+                                entries: vec![packet::PathNlri { path_id: 0, nlri: gr_nlri(HIDDEN, 9) }],
+                                nexthop: Some(gr_nexthop(HIDDEN)),
+                                attr: route_attrs(lv.generation, false, false),
+                            });
+                            lv.send(&[m]).await;
+                            lv.finished().await;
+                        }
+                        5 => {
+                            // not a BGP message: header error, a NOTIFICATION that is not a Cease
+                            use tokio::io::AsyncWriteExt;
+                            lv.client.write_all(&[0u8; 19]).await.expect("verif: write");
+                            lv.finished().await;
+                        }
+                        6 => {
+                            // silence until the (3 s) hold timer of the session expires
+                            lv.finished().await;
+                        }
+                        7 => {
+                            // disable_peer: the close channel accept_connection registered
+                            let tx = {
+                                let ctx = context.lock().unwrap();
+                                let mut arb = ctx.conn_arbiter.lock().unwrap();
+                                arb.passive_close_tx.take()
+                            };
+                            let _ = tx.expect("verif: no close channel").send(CloseReason::AdminShutdown);
+                            lv.finished().await;
+                        }
+                        t => panic!("verif: reason {} cannot be produced on a socket", t),
+                    }
                 }
             }
             4 => {
-                // a connection that never reaches Established: session_loop returns the
-                // initial DisconnectInfo, run() hands it to apply_disconnect
-                let s = PeerSession::new_for_test(addr, context.clone(), tables.clone());
-                let disconnect = DisconnectInfo {
-                    role: s.role,
-                    remote_addr: s.remote_addr,
-                    export_map: ExportMap::default(),
-                    negotiated_gr: None,
-                    negotiated_llgr: None,
-                };
-                apply_disconnect(&context, addr, &tables, disconnect).await;
+                // a connection that ends before Established: the neighbour connects and leaves
+                let (client, started) = start_session(
+                    &global,
+                    &tables,
+                    addr,
+                    caps_of(&[Family::IPV4], 65001, &Val::L(vec![]), &Val::L(vec![])),
+                    &active_tx,
+                )
+                .await;
+                drop(client);
+                if let Some((_counter, handle)) = started {
+                    tokio::time::timeout(Duration::from_secs(15), handle)
+                        .await
+                        .expect("verif: the connection attempt did not end")
+                        .expect("verif: session task panicked");
+                }
             }
             5 => {
                 let tx = {
@@ -508,7 +846,11 @@ async fn run_helper_case(l: &[Val]) -> Val {
                 }
             }
             7 => {
+                // fires the armed timers and tells the live session (if any) to close
                 context.lock().unwrap().force_down(CloseReason::Silent, false);
+                if let Some(lv) = live.take() {
+                    lv.finished().await;
+                }
             }
             8 => {
                 // disable_peer / enable_peer set this field of the Peer record
@@ -517,70 +859,17 @@ async fn run_helper_case(l: &[Val]) -> Val {
             t => panic!("verif: bad helper event {}", t),
         }
         settle().await;
-        let (restarting, rt, mut lts) = {
-            let ctx = context.lock().unwrap();
-            (
-                ctx.gr_state.is_peer_restarting(),
-                ctx.gr_restart_timer.as_ref().is_some_and(|t| !t.is_closed()),
-                ctx.llgr_family_timers
-                    .iter()
-                    .filter(|(_, t)| !t.is_closed())
-                    .map(|(f, _)| fam_code(f))
-                    .collect::<Vec<_>>(),
-            )
-        };
-        lts.sort();
-        let mut routes: Vec<Vec<i128>> = Vec::new();
-        for f in PROBE_FAMS {
-            for d in tables.collect_paths(table::TableQuery::AdjIn(addr), f, vec![], true) {
-                for p in d.paths {
-                    let g = sources
-                        .iter()
-                        .find(|(s, _)| Arc::ptr_eq(s, &p.source))
-                        .map(|(_, g)| *g)
-                        .unwrap_or(-1);
-                    routes.push(vec![
-                        fam_code(&f),
-                        net_code(&d.net) * 2 + p.remote_path_id as i128,
-                        g,
-                        p.source.is_stale() as i128,
-                        p.source.is_llgr_stale() as i128,
-                        has_comm(&p.attr, 0xffff_0007) as i128,
-                        has_comm(&p.attr, 0xffff_0006) as i128,
-                    ]);
-                }
-            }
-        }
-        routes.sort();
-        // what apply_outputs negotiated for the live session (negotiate_gr / negotiate_llgr)
-        let neg = match session.as_ref() {
+        let neg = match live.as_ref() {
             None => Val::L(vec![]),
-            Some(s) => Val::L(vec![
-                Val::opt(s.negotiated_gr.as_ref().map(|g| {
-                    Val::L(vec![
-                        Val::L(g.families.iter().map(|f| Val::I(fam_code(f))).collect()),
-                        Val::n(g.restart_time.as_secs()),
-                        Val::b(g.notification_enabled),
-                    ])
-                })),
-                Val::opt(s.negotiated_llgr.as_ref().map(|l| {
-                    Val::L(l.families
-                        .iter()
-                        .map(|(f, d)| Val::L(vec![Val::I(fam_code(f)), Val::n(d.as_secs())]))
-                        .collect())
-                })),
-            ]),
+            Some(lv) => lv.neg.clone(),
         };
-        obs.push(Val::L(vec![
-            Val::b(restarting),
-            Val::b(rt),
-            Val::L(lts.into_iter().map(Val::I).collect()),
-            Val::L(routes
-                .into_iter()
-                .map(|r| Val::L(r.into_iter().map(Val::I).collect()))
-                .collect()),
-            neg,
-        ]));
+        obs.push(observe(&context, &tables, addr, &neg));
+    }
+    // leave no session task behind
+    if let Some(lv) = live.take() {
+        let Live { client, handle, .. } = lv;
+        drop(client);
+        let _ = tokio::time::timeout(Duration::from_secs(15), handle).await;
     }
     Val::L(obs)
 }
@@ -591,6 +880,7 @@ fn run_case(case: &Val) -> Val {
     match l[0].int() {
         0 => rt.block_on(run_rs_case(l)),
         1 => rt.block_on(run_helper_case(l)),
+        2 => run_gr_on_disconnect_case(l),
         t => panic!("verif: bad glue case kind {}", t),
     }
 }
